@@ -53,6 +53,14 @@ def corpus():
         "plan 0 scenario=73,maxdur=10000000000,conc=2,maxit=0,igndrop=1 - mode=%s,dur=1000000000,volume=1000,repeat=600000000000,freq=1000000000,peak=300000000000,weights=%s,stddev=60000000000,dist=%s" % (hx("gaussian"), hx("0,0"), hx("regular")),
         "calc.gaussian 1000000000 1800000000000 %s %s" % (hx("0"), hx("none")),
         "calc.gaussian 1000000000 1800000000000 %s %s" % (hx("1,-1"), hx("random")),
+        "calc.gaussian 1000000000 1800000000000 %s %s" % (hx("Inf"), hx("none")),     # D28: weights without a finite mean
+        "calc.gaussian 1000000000 1800000000000 %s %s" % (hx("inf,1"), hx("regular")),
+        "calc.gaussian 1000000000 1800000000000 %s %s" % (hx("1,-Inf"), hx("none")),
+        "calc.constantj %s %s %s" % (hx("10/s"), hx("none"), hx("NaN")),            # D29 (known finding): a jitter that is not a number
+        "calc.constantj %s %s %s" % (hx("10/s"), hx("regular"), hx("Inf")),
+        "calc.constantj %s %s %s" % (hx("10/s"), hx("none"), hx("-Inf")),
+        "calc.constantj %s %s %s" % (hx("10/s"), hx("none"), hx("20")),
+        "calc.constantj %s %s %s" % (hx("7/100ms"), hx("random"), hx("99.5")),
         "gaussvol %s %d %d" % (hx("3/1500us"), 50400 * _plan.S, 9000 * _plan.S),     # units with a fractional-millisecond part
         "gaussvol %s %d %d" % (hx("1/500us"), 50400 * _plan.S, 9000 * _plan.S),
         "gaussvol %s %d %d" % (hx("7/s"), 50400 * _plan.S, 9000 * _plan.S),
@@ -103,6 +111,14 @@ def compare(rec):
     if rec["impl"] != rec["model"]:
         return "model=%s impl=%s" % (rec["model"], rec["impl"])
     return None
+
+
+def signature(rec):
+    """known finding D29: a jitter that is not a finite number is accepted and yields int(NaN) requests per tick"""
+    a = rec["case"].split()
+    if a[0] == "calc.constantj" and bytes.fromhex(a[3]).decode().lower().lstrip("+-") in ("nan", "inf", "infinity"):
+        return "C14:non-finite-jitter"
+    return rec["case"]
 
 
 def nontrivial_key(rec):
